@@ -295,6 +295,7 @@ func (j *Journal) Case(id int, kind string, f *Flags) map[string]any {
 				bk = append(bk, map[string]any{"cr": b.Cr, "dr": b.Dr, "c": b.C, "q": b.Q})
 			}
 			m["bk"] = bk
+			m["perf"] = d.Perf != nil
 			if d.Acc.On {
 				m["acc"] = map[string]any{"on": true, "iv": d.Acc.Iv, "s": d.Acc.S, "e": d.Acc.E, "a": d.Acc.A}
 			} else {
